@@ -58,6 +58,9 @@ GROUPS = {
   "Suffix": [
     ("src/arch/all/twoway.rs", r"impl SuffixKind \{", "SuffixKind", ["cmp"]),
     ("src/arch/all/twoway.rs", r"impl Suffix \{", "Suffix", ["forward", "reverse"])],
+  "TwoWayNew": [
+    ("src/arch/all/twoway.rs", r"impl Finder \{", "Finder", ["new"]),
+    ("src/arch/all/twoway.rs", r"impl FinderRev \{", "FinderRev", ["new"])],
   "IterHint": [
     ("src/memmem/mod.rs", r"impl<'h, 'n> Iterator for FindIter<'h, 'n> \{", "FindIter", ["size_hint"]),
     ("src/arch/generic/memchr.rs", r"impl<'h> Iter<'h> \{", "Iter", ["size_hint"])],
@@ -84,7 +87,10 @@ STRUCTS = {
     "IterHint": {},
     "Shift": {},
     "Suffix": {"Suffix": "src/arch/all/twoway.rs"},
+    "TwoWayNew": {"TwoWay": "src/arch/all/twoway.rs", "Finder": "src/arch/all/twoway.rs", "FinderRev": "src/arch/all/twoway.rs"},
 }
+# a group may call the functions and use the types of other groups (their Code<G>.v is imported, not repeated)
+GROUP_IMPORTS = {"TwoWayNew": ["ByteSet", "Suffix", "Shift"]}
 # enums read from the source: group -> {name: file}
 ENUMS = {"Shift": {"Shift": "src/arch/all/twoway.rs"},
          "Suffix": {"SuffixKind": "src/arch/all/twoway.rs", "SuffixOrdering": "src/arch/all/twoway.rs"}}
@@ -905,8 +911,14 @@ class Tr:
             ras = [self.expr(a, env, pt) for a, (_, pt) in zip(args, sig["params"])]
             if len(ras) != len(sig["params"]):
                 raise TieBroken(f"{w}: arity of {name}")
+            if "uses_fuel" not in sig:
+                raise TieBroken(f"{w}: {name} is called before it is translated (order the kernels callee first)")
+            fuel = ""
+            if sig["uses_fuel"]:
+                fuel = " fuel'" if self.in_loop else " fuel"
+                self.uses_fuel = True
             return self.bind_all(ras, lambda pas: R(
-                f"(rs_{key[0]}_{name}" + "".join(" " + a.text for a in pas) + ")", False, sig["ret"]))
+                f"(rs_{key[0]}_{name}{fuel}" + "".join(" " + a.text for a in pas) + ")", False, sig["ret"]))
         raise TieBroken(f"{w}: call of untranslated function {'::'.join(path)}")
 
     def match(self, e, env, want):
@@ -1400,15 +1412,8 @@ def read_struct(src, name, what):
         fields.append((mm.group(1), mm.group(2).strip()))
     return fields
 
-def translate(repo, group):
-    srcs = {}
-    def src(rel):
-        if rel not in srcs:
-            try:
-                srcs[rel] = strip_comments(open(os.path.join(repo, rel), encoding="utf-8").read())
-            except OSError as ex:
-                raise TieBroken(f"cannot read {rel}: {ex}")
-        return srcs[rel]
+def collect(repo, group, src):
+    """structs, enums and parsed functions of one group"""
     structs = {}
     for name, rel in STRUCTS[group].items():
         structs[name] = read_struct(src(rel), name, f"{rel}: struct {name}")
@@ -1443,7 +1448,6 @@ def translate(repo, group):
             raise TieBroken(f"{erel}: enum {ename} has no readable variants")
         enums[ename] = variants
     parsed = []
-    fnsigs = {}
     for rel, cont, prefix, names in GROUPS[group]:
         s = src(rel)
         scope = container_text(s, cont, rel) if cont else "{" + s + "}"
@@ -1453,19 +1457,44 @@ def translate(repo, group):
             fn = P(lex(text, what), what).fn()
             fn["ret"] = fn["ret"].replace("Self", prefix)
             parsed.append((rel, prefix, fn, what))
-            fnsigs[(prefix, name)] = fn
+    return structs, enums, parsed
+
+def translate(repo, group, _emit=True):
+    srcs = {}
+    def src(rel):
+        if rel not in srcs:
+            try:
+                srcs[rel] = strip_comments(open(os.path.join(repo, rel), encoding="utf-8").read())
+            except OSError as ex:
+                raise TieBroken(f"cannot read {rel}: {ex}")
+        return srcs[rel]
+    structs, enums, parsed = collect(repo, group, src)
+    own_structs, own_enums = dict(structs), dict(enums)
+    fnsigs = {}
+    imports = GROUP_IMPORTS.get(group, [])
+    for g in imports:
+        # translate the imported group (output discarded) to learn its types, signatures and which functions take fuel
+        _, isigs, istructs, ienums = translate(repo, g, _emit=False)
+        fnsigs.update(isigs)
+        for k_, v_ in istructs.items():
+            structs.setdefault(k_, v_)
+        for k_, v_ in ienums.items():
+            enums.setdefault(k_, v_)
+    for rel, prefix, fn, what in parsed:
+        fnsigs[(prefix, fn["name"])] = fn
     out = []
     out.append(f"(* GENERATED by tools/rs2coq.py (group {group}) from /repo's current source. Do not edit. *)")
-    out.append("From Memchr Require Import Base.Res Base.Bits Gen.Ops.")
+    out.append("From Memchr Require Import Base.Res Base.Bits Gen.Ops" + "".join(f" Gen.Code{g}" for g in imports) + ".")
     out.append("Local Open Scope N_scope.")
     out.append("")
-    for name, fields in structs.items():
-        flds = "; ".join(f"{name}_{f} : {coq_type(t, structs, name)}" for f, t in fields)
-        out.append(f"Record {name} := mk{name} {{ {flds} }}.")
-    for ename, variants in enums.items():
+    for ename in enums:
         structs.setdefault(ename, [])      # so that coq_type accepts the name
+    for ename, variants in own_enums.items():
         out.append(f"Inductive {ename} := " + " | ".join(
             f"{ename}_{v}" + "".join(f" ({f} : {coq_type(t, structs, ename)})" for f, t in flds) for v, flds in variants) + ".")
+    for name, fields in own_structs.items():
+        flds = "; ".join(f"{name}_{f} : {coq_type(t, structs, name)}" for f, t in fields)
+        out.append(f"Record {name} := mk{name} {{ {flds} }}.")
     out.append("")
     defs, deps = {}, {}
     for rel, prefix, fn, what in parsed:
@@ -1502,6 +1531,7 @@ def translate(repo, group):
             rty = f"({rty} * {prefix})"
         name = f"rs_{prefix}_{fn['name']}"
         btxt = body.mon()
+        fn["uses_fuel"] = tr.uses_fuel
         if tr.uses_fuel:
             binders.insert(0, "(fuel : nat)")
         for a_ in tr.aux:
@@ -1510,6 +1540,8 @@ def translate(repo, group):
             deps[an] = set(re.findall(r"\b(rs_[A-Za-z]+_[a-z_0-9]+)\b", a_)) - {an}
         defs[name] = (f"(* {rel}: {prefix}::{fn['name']} *)\nDefinition {name} {' '.join(binders)} : res {rty} :=\n  {btxt}.\n")
         deps[name] = set(re.findall(r"\b(rs_[A-Za-z]+_[a-z_0-9]+)\b", btxt))
+    if not _emit:
+        return None, fnsigs, structs, enums
     done, order = set(), []
     def visit(n, stack=()):
         if n in done or n not in defs:
@@ -1524,7 +1556,7 @@ def translate(repo, group):
         visit(n)
     for n in order:
         out.append(defs[n])
-    return "\n".join(out) + "\n"
+    return "\n".join(out) + "\n", fnsigs, structs, enums
 
 def main():
     ap = argparse.ArgumentParser()
@@ -1537,7 +1569,7 @@ def main():
         if g not in GROUPS:
             print(f"rs2coq: unknown group {g}", file=sys.stderr); sys.exit(2)
         try:
-            text = translate(a.repo, g)
+            text = translate(a.repo, g)[0]
         except TieBroken as ex:
             print(f"rs2coq: TIE BROKEN group={g}: {ex}")
             rc = 2
